@@ -10,6 +10,7 @@ directory-level statement over all workloads is decided by the loss-image corres
 -/
 import Klev.Proofs.RecoverCheck
 import Klev.Proofs.TornAppend
+import Klev.Proofs.LossProofs
 import Klev.Gen.Facts
 namespace Klev.C06
 
@@ -38,8 +39,39 @@ theorem synced_survive_batch_loss (p : Params) (base : Int) (ms bs : List Msg)
   obtain ⟨k, _, _, _, h⟩ := Klev.torn_batch_recovers p base ms bs idx hms hbs c hc
   exact ⟨k, _, h, rfl⟩
 
+/-! ### record level: losing the unsynced tail of the head (Klev/Loss.lean)
+
+Sealed segments are fsynced at rollover and rewritten files before they are renamed in (the
+regenerated facts above; the loss profile also checks on every image that only the head's files
+had an unsynced tail), so a power loss cuts the head log back to some number `j` of whole records
+and leaves the head index in any state. -/
+
+open Klev.Loss in
+/-- Whatever tail of the head log is lost and whatever is left of the head index, Open with Recover
+succeeds, the log satisfies the invariant, holds exactly the messages that were not lost, and its next
+offset is the one after the last surviving record. -/
+theorem loss_recovers (l : Log) (hinv : Inv l) (j : Nat) (idx : Option IdxFile)
+    (oo : OpenOpts) (hro : oo.opts.readonly = false) (hrec : oo.recover = true) :
+    ∃ l', Log.open (lossState l j idx) oo = .ok l' ∧ Inv l' ∧
+      (abs l').live = keptLive l j ∧ (abs l').next = ackAfter l j :=
+  Klev.Loss.loss_recovers l hinv j idx oo hro hrec
+
+open Klev.Loss in
+/-- **The property**: if Sync acknowledged when the head held `n` records and at least those survive
+(`n ≤ j`: fsynced data is not lost), every live message below the acknowledged offset survives, NextOffset
+is not below it, and what survives is a prefix of what was there. -/
+theorem synced_survive (l : Log) (hinv : Inv l) (n j : Nat) (hnj : n ≤ j) (idx : Option IdxFile)
+    (oo : OpenOpts) (hro : oo.opts.readonly = false) (hrec : oo.recover = true) :
+    ∃ l', Log.open (lossState l j idx) oo = .ok l' ∧ Inv l' ∧
+      (∀ m ∈ (abs l).live, m.off < ackAfter l n → m ∈ (abs l').live) ∧
+      ackAfter l n ≤ (abs l').next ∧
+      (abs l').live <+: (abs l).live :=
+  Klev.Loss.synced_survive l hinv n j hnj idx oo hro hrec
+
 end Klev.C06
 
 #print axioms Klev.C06.source_facts
 #print axioms Klev.C06.synced_prefix_survives_partial
 #print axioms Klev.C06.synced_survive_batch_loss
+#print axioms Klev.C06.loss_recovers
+#print axioms Klev.C06.synced_survive
